@@ -146,12 +146,19 @@ type Payload struct {
 	Salt         byte   `json:"salt"`
 	Encoding     string `json:"content_encoding,omitempty"` // "" | gzip | br : the backend's own Content-Encoding
 	PlainLen     int    `json:"plain_len,omitempty"`        // Encoding gzip: length of the text the backend gzipped
+	// SliceOf > 0: the body is the byte range [SliceOff, SliceOff+Len) of a representation of SliceOf bytes
+	// (same kind and salt) - what a backend sends in a 206 answer to a Range request
+	SliceOf  int `json:"slice_of,omitempty"`
+	SliceOff int `json:"slice_off,omitempty"`
 }
 
 // Bytes returns the body exactly as the backend sends it.
 func (p Payload) Bytes() []byte {
 	if p.Encoding == "gzip" {
 		return gzipBytes(makeBody(p.PlainLen, p.Compressible, p.Salt))
+	}
+	if p.SliceOf > 0 {
+		return makeBody(p.SliceOf, p.Compressible, p.Salt)[p.SliceOff : p.SliceOff+p.Len]
 	}
 	// "br" bodies are opaque to everybody here: pseudo-random or text bytes labelled br
 	return makeBody(p.Len, p.Compressible, p.Salt)
@@ -612,6 +619,7 @@ type Verdict struct {
 	Labels     []string
 	Nontrivial bool
 	Compressed bool
+	Decoded    []byte // what the client decoded (set when it could decode the response at all)
 }
 
 func ceOf(h http.Header) string { return strings.Join(h.Values("Content-Encoding"), ", ") }
@@ -724,6 +732,7 @@ func Judge(f *Facts, got *lab.RawResponse, err error) Verdict {
 	default:
 		return fail("RT: client received Content-Encoding %q which the backend never sent", gotCE)
 	}
+	v.Decoded = content
 	if !bytes.Equal(content, f.Body) {
 		return fail("RT: decoding what the client received (Content-Encoding %q, Content-Length %d, chunked %v, %d bytes on the wire) yields %d bytes that differ from the backend's %d-byte body at offset %d%s",
 			gotCE, got.DeclaredCL, got.Chunked, len(got.Body), len(content), len(f.Body), firstDiff(content, f.Body), hint(got, f))
